@@ -53,6 +53,7 @@ struct ProcCtx {
   std::vector<std::string> argv;
   std::map<std::string, std::string> env;
   std::string cwd;
+  size_t lastAccepted = 0;   // bytes of the last write() that were accepted before it returned
   // All return false once the process has been killed; the program must then return promptly.
   bool write(int fd, const std::string& data, size_t chunk = 0);
   bool sleepUs(uint64_t us);
